@@ -3,7 +3,7 @@ handle methods (C10), from the MIR of the mount crate (real arbiter.rs / system.
 import os, json, random, time
 import z3
 from vlib import core, mir
-from mirsym import parse_mir, Exec, Ref, LCell, Cell, Enum, Struct, Tuple, Abort, Panic, Unknown, UNIT
+from mirsym import parse_mir, Exec, Ref, LCell, Cell, Enum, Struct, Tuple, Abort, Panic, Unknown, UNIT, CoroutineVal
 import models, srvmodels
 from models import (MODELS, parse_layouts, ChanObj, TxObj, RxObj, DictObj, OneshotTx, ContextObj, WakerObj, BoxObj)
 from explore import explore_levels, boundary, Acc
@@ -37,13 +37,13 @@ class RtCtx:
             if f is None: raise core.Inconclusive('cannot locate %s::%s in the MIR dump of the actix-rt mount crate' % (ty, meth))
             return f
         self.SYS_POLL = M('SystemController', 'poll', 'Future'); self.ARB_POLL = M('ArbiterRunner', 'poll', 'Future')
-        self.H_SPAWN = M('ArbiterHandle', 'spawn'); self.H_STOP = M('ArbiterHandle', 'stop'); self.H_CLONE = M('ArbiterHandle', 'clone', 'Clone')
+        self.H_SPAWN = M('ArbiterHandle', 'spawn'); self.H_SPAWN_FN = M('ArbiterHandle', 'spawn_fn'); self.H_STOP = M('ArbiterHandle', 'stop'); self.H_CLONE = M('ArbiterHandle', 'clone', 'Clone')
         self.STOP_CODE = M('System', 'stop_with_code')
         for need in ('SystemController', 'ArbiterHandle', 'ArbiterRunner', 'System'):
             if need not in self.structs: raise core.Inconclusive('layout of %s not found' % need)
 
     def mk(self):
-        ex = Exec(self.fns, MODELS, self.structs, self.enums); ex.wakes = {}; ex.spawned = []
+        ex = Exec(self.fns, MODELS, self.structs, self.enums); ex.wakes = {}; ex.spawned = []; ex.spawn_queue = []
         return ex
 
 
@@ -135,15 +135,18 @@ def c09_sym_trace(ctx, tokens):
 
 # ------------------------------------------------------------------ C10
 class Task:
+    """a tagged task: used as a future (`spawn`) - it counts as started when the arbiter loop hands it to spawn_local - and as
+    a FnOnce (`spawn_fn`) - the real `async { f() }` wrapper is resumed when spawned and calls it"""
     canon_fields = ('tag',)
     def __init__(self, tag): self.tag = tag
     def model_drop(self, ex): pass
+    def call_once(self, ex): ex.spawned.append(self); return UNIT
 
 
 class ArbWorld:
     def __init__(self, ctx, ex):
         self.c, self.ex = ctx, ex
-        self.ch = ChanObj()
+        self.ch = ChanObj(track=True)
         self.handles = [Struct('ArbiterHandle', [TxObj(self.ch)])]
         self.rxobj = RxObj(self.ch)
         self.runner = Struct('ArbiterRunner', [self.rxobj])
@@ -156,7 +159,7 @@ class ArbWorld:
         ex = self.ex; p = op.split(':'); self.hist.append(op)
         if p[0] in ('spawn', 'spawnfn'):
             h = int(p[1]); tag = int(p[2])
-            r = ex.run(self.c.H_SPAWN, [Ref(LCell(Cell(self.handles[h]))), Task(tag)])
+            r = ex.run(self.c.H_SPAWN if p[0] == 'spawn' else self.c.H_SPAWN_FN, [Ref(LCell(Cell(self.handles[h]))), Task(tag)])
             ok = z3.is_true(z3.simplify(r)); self.out.append('r=%d' % (1 if ok else 0))
             return ('spawn', ok, tag)
         if p[0] == 'stop':
@@ -167,7 +170,6 @@ class ArbWorld:
             self.handles.append(ex.run(self.c.H_CLONE, [Ref(LCell(Cell(self.handles[int(p[1])])))])); return None
         if p[0] == 'droph':
             ex.drop(self.handles[int(p[1])]); self.handles[int(p[1])] = None
-            if not self.live_handles(): self.rxobj.senders_alive = False
             return None
         if p[0] == 'dropr':
             if self.runner_alive: ex.drop(self.runner); self.runner_alive = False
@@ -177,6 +179,7 @@ class ArbWorld:
             if self.runner_alive and not self.done:
                 r = ex.run(self.c.ARB_POLL, [Ref(LCell(Cell(self.runner))), Ref(LCell(Cell(self.cx)))])
                 ready = r.variant == 'Ready'
+                run_spawned(ex)
                 if ready:
                     self.done = True; ex.drop(self.runner); self.runner_alive = False
             self.out.append('P=%s ran=%s' % ('ready' if ready else 'pending', [t.tag for t in ex.spawned]))
@@ -194,7 +197,7 @@ def c10_body(ctx, depth):
     def body(ex, acc):
         w = ArbWorld(ctx, ex)
         exp = []; stopped = False; gone = False
-        def roots(): return [w.runner, w.ch, w.handles, w.done, w.runner_alive, [t.tag for t in ex.spawned], exp, stopped, w.ntag]
+        def roots(): return [w.runner, w.ch, w.handles, w.done, w.runner_alive, [t.tag for t in ex.spawned], list(ex.spawn_queue), exp, stopped, w.ntag]
         for step in range(depth):
             boundary(ex, acc, step + 1, roots())
             L = w.live_handles()
@@ -227,7 +230,7 @@ def c10_body(ctx, depth):
                 if was_alive:
                     # the loop drains its queue on every poll: everything accepted before the stop has started now
                     acc.violated(ex, 'C10/everything_sent_before_stop_is_started', ran != exp, hist=w.hist, what='started %s, accepted before the first stop %s' % (ran, exp))
-                    acc.violated(ex, 'C10/loop_ends_exactly_on_stop_or_when_all_handles_are_gone', res[1] != (stopped or not w.live_handles()), hist=w.hist,
+                    acc.violated(ex, 'C10/loop_ends_exactly_on_stop_or_when_all_handles_are_gone', res[1] != (stopped or w.ch.senders == 0), hist=w.hist,
                                  what='poll returned %s; stop sent: %s; live handles: %s' % ('Ready' if res[1] else 'Pending', stopped, w.live_handles()))
                 if res[1]: acc.wit['c10_loop_ended'] += 1
                 if ran: acc.wit['c10_tasks_started'] += 1
@@ -243,7 +246,16 @@ def c10_sym_trace(ctx, tokens):
 
 
 def m_spawn_local(ex, a, t):
-    ex.spawned.append(unbox(a[0])); return models.Opaque('join-handle')
+    # tokio::task::spawn_local only queues the task; it first runs after the arbiter loop's current poll has returned
+    ex.spawn_queue.append(unbox(a[0]))
+    return models.Opaque('join-handle')
+
+
+def run_spawned(ex):
+    while ex.spawn_queue:
+        task = ex.spawn_queue.pop(0)
+        if isinstance(task, CoroutineVal): models.poll_coroutine(ex, task)      # the task starts: resume the real async block once
+        else: ex.spawned.append(task)
 
 
 MODELS[:0] = [(r'tokio::task::spawn_local::<', m_spawn_local), (r'(?:^|::)spawn_local::<', m_spawn_local)]
